@@ -66,7 +66,7 @@ func vfC07GenSize(rt *rapid.T, eff int64, label string, thorough bool) int {
 	if e <= 65536 {
 		pool = append(pool, 3*e, e+100000)
 	} else {
-		pool = append(pool, 1000)
+		pool = append(pool, 1000, 1000, 0) // the 4 MiB default: fewer of the expensive boundary bodies
 	}
 	n := rapid.SampledFrom(pool).Draw(rt, label+"-size")
 	if n < 0 {
@@ -115,6 +115,9 @@ func vfC07GenCase(rt *rapid.T, c *vfxCfg, thorough bool) (k vfC07Case, eff int64
 	}
 	k.Size = vfC07GenSize(rt, eff, k.Dir, thorough)
 	k.Reps = rapid.SampledFrom([]int{1, 2, 2, 3}).Draw(rt, "repetitions")
+	if k.Size > 1<<20 && k.Reps > 2 {
+		k.Reps = 2 // multi-megabyte bodies: at most one repetition
+	}
 	if k.Dir == "resp" {
 		k.AcceptEn = rapid.SampledFrom([]string{"", "gzip", "identity"}).Draw(rt, "accept-encoding")
 	} else if c.Compression >= 0 {
